@@ -190,6 +190,8 @@ Goal(g) ==
                                        /\ s.round > s.lockedR /\ s.step >= StPrevote
     [] g = "locked_other_invalid" -> s.lockedV # Nil /\ s.propBlock \notin {Nil, s.lockedV} /\ ~Valid(s.propBlock)
                                        /\ s.round > s.lockedR /\ s.step >= StPrevote
+    [] g = "locked_other_pol"     -> s.lockedV # Nil /\ s.prop # NoProp /\ s.prop.pol >= s.lockedR /\ s.prop.v # s.lockedV
+                                       /\ s.propBlock = s.prop.v /\ ProposalComplete(s) /\ s.round > s.lockedR /\ s.step >= StPrevote
     [] g = "locked_no_proposal"   -> s.lockedV # Nil /\ s.propBlock = Nil /\ s.round > s.lockedR /\ s.step >= StPrevote
     [] g = "unlocked"             -> lock.v # Nil /\ s.lockedV = Nil /\ s.height = 1
     [] g = "relock_same"          -> \E r \in Rounds : r > 0 /\ PrecommittedIn(r).v \notin {None, Nil}
@@ -208,7 +210,7 @@ Goal(g) ==
     [] g = "pol_proposal_complete" -> s.prop # NoProp /\ s.prop.pol >= 0 /\ ProposalComplete(s)
     [] g = "valid_block_set"      -> s.validV # Nil /\ s.lockedV = Nil
     [] g = "panic"                -> s.panic # "none"
-GoalNames == <<"lock", "locked_other_valid", "locked_other_invalid", "locked_no_proposal", "unlocked", "relock_same",
+GoalNames == <<"lock", "locked_other_pol", "locked_other_valid", "locked_other_invalid", "locked_no_proposal", "unlocked", "relock_same",
                "lock_changed", "polka_unheld", "commit_wait_block", "decided_r0", "decided_later",
                "own_proposal_valid", "own_proposal_fresh", "round_skip", "prevote_nil_invalid", "ttp_early",
                "pol_proposal_complete", "valid_block_set", "panic">>
